@@ -151,10 +151,15 @@ def normTree (t : String) : String :=
 
 /-- only the last line of a file may lack its newline (then the lines are exactly what splitting the
 file's bytes gives back) -/
+def lineOK (l : Bytes) : Bool := !l.isEmpty && !(l.dropLast.contains 10)
+
+/-- (mirror of `Agree.Terminated`: every line is non-empty and has no newline inside, every line but the last ends
+with one — an EMPTY last line, as `+` followed by `\ No newline` produces, is zero bytes on disk and not a line after
+re-reading) -/
 def termOK : List Bytes → Bool
   | [] => true
-  | [_] => true
-  | l :: rest => l.getLast? == some 10 && termOK rest
+  | [l] => lineOK l
+  | l :: rest => lineOK l && l.getLast? == some 10 && termOK rest
 
 /-- Class of the known finding `unterminated-line-mid-file`: while the patches of this invocation are
 applied (up to and including the failing one), some file patch leaves a file whose in-memory lines have
